@@ -213,7 +213,8 @@ SECTIONS = []   # (name, emitter) registered below and by later modules
 
 
 def register(name, emitter):
-    SECTIONS.append((name, emitter))
+    if name not in [n for n, _e in SECTIONS]:
+        SECTIONS.append((name, emitter))
 
 
 register('c19', _emit_c19)
@@ -229,7 +230,10 @@ Open Scope Z_scope.
 
 def generate():
     """Return (text, errors). A section that fails is emitted as a comment; errors lists (section, message)."""
-    from . import tables_more  # noqa: F401  (registers further sections)
+    import glob
+    import importlib
+    for fn in sorted(glob.glob(os.path.join(os.path.dirname(os.path.abspath(__file__)), 'tables_*.py'))):
+        importlib.import_module('harness.' + os.path.basename(fn)[:-3])   # registers further sections
     parts = [HEADER]
     errors = []
     for name, emitter in SECTIONS:
